@@ -10,7 +10,7 @@ sys.path.insert(0, ROOT)
 
 NOT_BUILT = 'check not built yet in this round; will be claimed once its obligations discharge on the unchanged tree'
 NOT_APPLICABLE = {}
-HOLD = {'C01': 'check built; on hold while two genuine defects found by it (single-row/column lattices) are triaged', 'C03': 'check built; on hold while genuine defects found by it (quadtree get_index_of) are triaged'}
+HOLD = {}
 
 BASELINE = ('cd /repo && /venv/bin/python -m pytest -ra -q -p no:cacheprovider --timeout=900 '
             '--continue-on-collection-errors')
